@@ -37,8 +37,13 @@ func report(r *chk.Run, class string, in util.CellInput, why string) {
 }
 
 func replay(kind string, input json.RawMessage) (bool, string) {
-	if kind == "history" {
+	switch kind {
+	case "history":
 		return e2.ReplayHistory(kind, input)
+	case "schema":
+		return e2.ReplaySchema(input)
+	case "numshapes":
+		return e2.ReplayNum(input)
 	}
 	var in util.CellInput
 	if err := json.Unmarshal(input, &in); err != nil {
@@ -321,5 +326,9 @@ func run(r *chk.Run) {
 	r.Assume("signedness of an integer cell is whatever the caller passes (end-to-end use of the mapper's flag is C01/C15)")
 	// end-to-end half (engine E2): signedness comes from the table mapper by ordinal
 	e2.RunSignedness(r)
+	// ... also when the definition of a table changes while the stream runs
+	e2.RunSchemaChange(r)
+	// every numeric cell shape in rows events of 1..3 rows through the streamer
+	e2.RunNumericShapes(r)
 	r.SetExhaustive(true)
 }
